@@ -1,3 +1,4 @@
+import Splipy.Lemmas.C10Cummax
 import Splipy.Lemmas.C08Knots
 import Splipy.Lemmas.C08Merge
 import Mathlib.Tactic.Ring
@@ -92,7 +93,8 @@ theorem ext_mono : Monotone b.ext := by
   rw [Nat.zero_add] at this
   exact this
 
-/-- **`roll(μ)`** for `μ ≤ n`: same order / periodicity / length, knots `ext (μ + ·)`. -/
+/-- **`roll(μ)`** for `μ ≤ n`: same order / periodicity / length, knots `ext (μ + ·)` (the running maximum `roll`
+    applies after its shifted copy is the identity here: the exact result is non-decreasing). -/
 theorem roll_spec (mu : ℕ) (hmu : mu ≤ b.numFunctions) :
     ∃ b1, b.roll mu = .ok b1 ∧ b1.order = b.order ∧ b1.periodic = b.periodic ∧
       b1.knots.size = b.knots.size ∧ ∀ j, j < b.knots.size → b1.knots[j]? = some (b.ext (mu + j)) := by
@@ -105,10 +107,17 @@ theorem roll_spec (mu : ℕ) (hmu : mu ≤ b.numFunctions) :
   unfold Basis.roll
   rw [if_neg (by omega)]
   simp only [← hkdef, hnidx]
-  refine ⟨_, rfl, rfl, rfl, ?_, ?_⟩
-  · simp only [Array.size_append, Array.size_extract, Array.size_map]
+  -- the array before the running maximum
+  obtain ⟨raw, hraw⟩ : ∃ raw : Array K, raw = b.knots.extract mu n ++
+      Array.map (fun x => x - (b.kn 0 - b.kn n)) (b.knots.extract 0 (b.knots.size - (n - mu))) := ⟨_, rfl⟩
+  rw [← hraw]
+  have hsize : raw.size = b.knots.size := by
+    rw [hraw]
+    simp only [Array.size_append, Array.size_extract, Array.size_map]
     omega
-  · intro j hj
+  have hent : ∀ j, j < b.knots.size → raw[j]? = some (b.ext (mu + j)) := by
+    intro j hj
+    rw [hraw]
     have hT : b.kn 0 - b.kn n = -(b.stop - b.start) := by
       have := hv.ghosts hper 0 (by omega)
       rw [Nat.zero_add] at this
@@ -127,6 +136,15 @@ theorem roll_spec (mu : ℕ) (hmu : mu ≤ b.numFunctions) :
       rw [hT, show mu + j = (j - (n - mu)) + n by omega, ext_add hv hper,
         ext_eq hv hper _ (by omega)]
       ring
+  have hcm : Basis.cummax raw = raw := by
+    apply Basis.cummax_of_sorted
+    intro i hi
+    have h1 := hent i (by omega)
+    have h2 := hent (i + 1) (by omega)
+    rw [Array.getD_eq_getD_getElem?, Array.getD_eq_getD_getElem?, h1, h2]
+    exact ext_mono hv hper (by omega)
+  rw [hcm]
+  exact ⟨_, rfl, rfl, rfl, hsize, hent⟩
 
 end
 
